@@ -70,5 +70,4 @@ def run(tier):
 
 
 def replay(path):
-    print("replay: the replay file holds the specification XML, class and object; re-run `./bin/check C19 quick`")
-    return 0
+    return gen_replay(path)
